@@ -500,7 +500,16 @@ def check(pid, tier, seed):
                 # crashed or hung: the tape being run is in current-<w>.tape
                 cur = os.path.join(outdir, "current-%d.tape" % w)
                 logtxt = open(os.path.join(outdir, "worker-%d.log" % w), errors="replace").read()
-                if os.path.exists(cur):
+                early = os.path.join(outdir, "worker-%d.fail.tape" % w)
+                st = 0
+                if os.path.exists(early):
+                    # killed while shrinking a failure it had already found: its best tape so far decides
+                    st, key, msg, _ = replay(binpath, early, flags, timeout=30)
+                    if st == 1 and not (key == "HANG" and not ex.get("hang_is_violation")):
+                        violations.append((early, key, msg, ex["name"]))
+                if st == 1:
+                    pass
+                elif os.path.exists(cur):
                     st, key, msg, _ = replay(binpath, cur, flags, timeout=30)
                     if st == 1:
                         if key == "HANG" and not ex.get("hang_is_violation"):
